@@ -30,6 +30,12 @@ CRASH_KINDS = {"CrashOobWrite": "F13", "CrashOobFeat": "F13", "CrashUnderflow": 
 
 def classify(component, what, case):
     """A failing case is an instance of a known finding only if it has exactly that finding's mechanism."""
+    if case.get("crash") and component == "compile":
+        err = case.get("stderr", "")
+        if ("schema_compile_node.c" in what and "member access within null pointer of type 'struct lysc_type'" in what) or \
+                ("SEGV" in what and "lys_compile_type" in err):
+            return "F54"
+        return None
     if case.get("crash"):
         line = case.get("line") or ""
         key = " ".join(line.split()[1:])
@@ -457,8 +463,9 @@ def run_iff(cx):
 
 def run(cx):
     run_iff(cx)
-    from checks import c11range
+    from checks import c11range, c11meta
     c11range.run_range(cx, model_first, PRED)
+    c11meta.run_meta(cx)
 
 
 def replay(cx, payload):
